@@ -49,11 +49,11 @@ def outside_listing():
     return out
 
 
-def hostile_disc(r, k=0):
+def hostile_disc(r, k=0, pairs=None):
     files = []
     pos = 2
     used = set()
-    n = r.range(2, 12)
+    n = r.range(2, 12) if pairs is None else 0     # a pairs disc holds nothing that could end the extraction early
     for j in range(n):
         if j == n - 1:
             nm = HOSTILE_NAMES[k % len(HOSTILE_NAMES)]     # first in catalogue order: processed first
@@ -68,6 +68,19 @@ def hostile_disc(r, k=0):
         body = b'BODY%d' % j
         files.append(discs.AbsFile(d, nm[:7], r.chance(1, 5), 0, 0, pos, body))
         pos += 1
+    # pairs of entries whose host names coincide once '/' has been made harmless ('_x' and '/x' in directory '.', i.e. "._x" and "../x"),
+    # in both catalogue orders: whatever is done about the collision, the second of the pair must not fall back to its raw name
+    if pairs is not None:
+        flip = pairs % 2 == 1
+        pairs = [((0x2E, b'_x'), (0x2E, b'/x')), ((0x24, b'A_B'), (0x24, b'A/B')), ((0x5F, b'Q'), (0x2F, b'Q'))]
+        for (first, second) in pairs:
+            if flip:
+                first, second = second, first
+            for (d_, nm_) in (second, first):            # the list is reversed below: `first` comes first in catalogue order
+                if (d_, nm_) not in used and pos < 390:
+                    used.add((d_, nm_))
+                    files.append(discs.AbsFile(d_, nm_, False, 0, 0, pos, b'PAIR%d' % pos))
+                    pos += 1
     files.reverse()
     d = discs.AbsDisc('dfs', 40, 10)
     d.cats = [discs.AbsCat(b'HOSTILE', 0, 0, 400, files)]
@@ -80,8 +93,8 @@ def run(ctx):
     n = 25 if ctx.tier == 'quick' else 300
     root = tempfile.mkdtemp(prefix='beebverif-c12-')
     try:
-        for k in range(n):
-            d = hostile_disc(r, k) if k < 20 or r.chance(3, 4) else discs.gen_disc(r, hostile=True, max_files=8)
+        for k in range(n + 2):
+            d = hostile_disc(r, k, pairs=k - n) if k >= n else hostile_disc(r, k) if k < 20 or r.chance(3, 4) else discs.gen_disc(r, hostile=True, max_files=8)
             img = d.encode(discs.filler(r))
             sb = os.path.join(root, 's%d' % k)
             os.makedirs(os.path.join(sb, 'a', 'b', 'images'))
@@ -197,11 +210,15 @@ def run(ctx):
             env = dict(os.environ)
             env['TMPDIR'] = os.path.join(sb, 'tmpdir')
             env['ASAN_OPTIONS'] = 'detect_leaks=0'
-            rd, wr = os.pipe()
-            os.close(rd)       # nobody reads: the first flush gets SIGPIPE (default action: the process dies)
-            p_ = _sp.Popen([impl['dfs'], '--file', fname] + argv_tail, cwd=sb, stdout=wr, stderr=_sp.DEVNULL, env=env,
-                           preexec_fn=lambda: _sig.signal(_sig.SIGPIPE, _sig.SIG_DFL))
-            os.close(wr)
+            def pre_():
+                # nobody reads: the first flush gets SIGPIPE (default action: the process dies); the pipe is made in the
+                # child so that no other process can hold its read end
+                _sig.signal(_sig.SIGPIPE, _sig.SIG_DFL)
+                rd, wr = os.pipe()
+                os.close(rd)
+                os.dup2(wr, 1)
+                os.close(wr)
+            p_ = _sp.Popen([impl['dfs'], '--file', fname] + argv_tail, cwd=sb, stderr=_sp.DEVNULL, env=env, preexec_fn=pre_)
             try:
                 p_.wait(timeout=60)
             except _sp.TimeoutExpired:
